@@ -35,7 +35,7 @@ ASSUMPTIONS = ["calls are atomic (no pre-emption inside a call); interleaving = 
                "capitalised colour names and lower-case residue keys are not generated (docstring and code disagree: ambiguity window)",
                "relative order of the space and the line break inside one gap is not asserted",
                "the default palette is whatever the pristine interpreter's aminoacids.DEFAULT_COLOR_PALETTE holds"]
-PROBES = ["caller_mutates_its_dict_after_update", "reject_on_custom_palette", "reject_at_first_key", "reject_at_last_key", "render_len_gt_100",
+PROBES = ["same_dict_object_passed_again", "caller_mutates_its_dict_after_update", "reject_on_custom_palette", "reject_at_first_key", "reject_at_last_key", "render_len_gt_100",
           "render_len_multiple_of_50", "new_object_after_foreign_update", "accept_with_extra_keys"]
 
 
@@ -82,6 +82,8 @@ def gen_plan(streams, tier):
             op = {"k": "set", "o": rnd.randrange(nobj + 1), "pal": pal}
             if rnd.random() < 0.3:
                 op["then_mutate"] = [rnd.choice(list(AA)), rnd.choice(COLOURS + ["pink"])]
+            if rnd.random() < 0.35:
+                op["same_dict"] = True          # the caller edits one dictionary object in place and passes it again
             if rnd.random() < w_break:
                 op["pal"], op["j"], op["how"] = break_palette(rnd, pal, order)
             ops.append(op)
@@ -108,6 +110,10 @@ def corpus():
             ops.append({"k": "set", "o": 0, "pal": p, "j": j, "how": how})
             ops.append({"k": "render", "o": 1})
     out.append(("all_40_failure_points", {"property": ID, "run_seed": 20, "objects": [AA * 3, AA], "ops": ops}))
+    ops2 = [{"k": "set", "o": 0, "pal": red, "same_dict": True}, {"k": "set", "o": 1, "pal": dict(blue, W="pink"), "j": 18, "how": "colour", "same_dict": True},
+            {"k": "render", "o": 1}, {"k": "set", "o": 0, "pal": {a: "teal" for a in order if a != "C"}, "j": 1, "how": "missing", "same_dict": True},
+            {"k": "set", "o": 1, "pal": blue, "same_dict": True}, {"k": "render", "o": 0}]
+    out.append(("one_dict_object_edited_in_place", {"property": ID, "run_seed": 23, "objects": ["ACDEFGHIKLMNPQRSTVWY", "WYWYAC"], "ops": ops2}))
     out.append(("block_boundaries", {"property": ID, "run_seed": 21,
                                      "objects": ["A" * n for n in (1, 9, 10, 11, 49, 50, 51, 99, 100, 101, 150, 151)],
                                      "ops": [{"k": "render", "o": i} for i in range(12)]}))
@@ -215,6 +221,8 @@ def execute(plan, ctx):
         raise Violation("default_palette_invalid", "default", "shipped default palette is not a valid palette")
     objs, seqs, pals, custom = [], [], [], []
     foreign_update = [False]
+    shared = {}
+    shared_used = [False]
 
     def new(seq):
         o = SequenceParameters(seq)
@@ -260,6 +268,13 @@ def execute(plan, ctx):
         valid = is_valid(pal)
         raised = None
         passed = dict(pal)
+        if op.get("same_dict"):
+            shared.clear()
+            shared.update(pal)
+            passed = shared
+            if shared_used[0]:
+                ctx.probe("same_dict_object_passed_again")
+            shared_used[0] = True
         try:
             objs[i].set_HTMLColorResiduePalette(passed)
         except Exception as e:
